@@ -184,6 +184,20 @@ theorem ofDay_eq_spec (n : Int) (g : Good n) : ofDay n = hebrewSpec.ofDay n := b
   have hns : ¬ (hebrewSpec.before y (M - 1) + d < 0 ∨ hebrewSpec.before y (M - 1) + d > 65535) := by omega
   rw [e0, if_neg hns, hu]
 
+/-- The closed form `date_to_iso` uses for the days before a month is the sum of the month lengths. -/
+theorem daysPreceding_eq (y : Int) (m : Nat) (h1 : 1 ≤ m) (h2 : m ≤ hebrewSpec.months y) :
+    daysPreceding y m = hebrewSpec.before y (m - 1) := by
+  simp only [hebrewSpec] at h2
+  rcases corr_range y with hc | hc | hc <;> cases hl : isLeap y <;>
+    simp only [hl, Bool.false_eq_true, if_false, if_true] at h2
+  all_goals
+    have hm : m = 1 ∨ m = 2 ∨ m = 3 ∨ m = 4 ∨ m = 5 ∨ m = 6 ∨ m = 7 ∨ m = 8 ∨ m = 9 ∨ m = 10 ∨ m = 11 ∨ m = 12 ∨
+        m = 13 := by omega
+    rcases hm with rfl | rfl | rfl | rfl | rfl | rfl | rfl | rfl | rfl | rfl | rfl | rfl | rfl <;>
+      first
+        | omega
+        | simp [daysPreceding, hebrewSpec, ACal.before, monthLen, hl, hc]
+
 /-- Away from a molad at Saturday 18 h 0 p the library's debug assertion holds: no panic in any build. -/
 theorem ofDayChecked_ok (n : Int) (g : Good n) : ofDayChecked n = .ok (ofDay n) := by
   obtain ⟨s1, s2⟩ := yearOfWith_spec n
